@@ -226,3 +226,17 @@ package main
 //@   in ~/cmd/regsync
 //@   infunc \)\.processRef$
 //@   requires releases-a-held-slot-once: $syncSlot
+
+// C18 "the target tag resolves to the same digest as the source": processRef decides that nothing
+// is to be done by comparing the digests of two HEAD answers. Both requests demand a digest
+// (WithManifestRequireDigest: a registry that omits Docker-Content-Digest is asked again with GET),
+// otherwise two answers without the header compare equal ("" == "") and a moved source tag is
+// never mirrored.
+//@ callsite (*~.RegClient).ManifestHead(ctx, r, opts)
+//@   prop C18
+//@   name ManifestHead/sync-compare
+//@   in ~/cmd/regsync
+//@   infunc \)\.processRef$
+//   (the two requests made before the step takes its throttle slot; the later ones only read rate-limit headers)
+//@   where compared-for-the-match: !$syncSlot && (r == caller.src || r == caller.tgt)
+//@   requires a-digest-is-demanded: len(opts) >= 1 && opts[0] == $ret(WithManifestRequireDigest, 0)
